@@ -28,7 +28,7 @@ def shards(tier, seed):
     out = []
     for kind in simgw.KINDS:
         for shape in SHAPES:
-            for scb in (("ok",) if tier == "quick" and shape not in ("plain", "slow_transport", "fault_reconnect") else ("ok", "raise", "slow", "slow_connected")):
+            for scb in (("ok",) if tier == "quick" and shape not in ("plain", "slow_transport", "fault_reconnect", "send_write_error", "send_fault_read_silent") else ("ok", "raise", "slow", "slow_connected")):
                 out.append({"name": f"{kind}-{shape}-{scb}", "kind": kind, "shape": shape, "scb": scb, "tier": tier, "seed": seed})
     return out
 
